@@ -5,6 +5,9 @@ from harness import nsrun as N
 from vlib import fakes as F
 from vlib import ns
 
+# private-attribute groups (vlib/layout.py) the obligations of this module depend on
+LAYOUT = ['manager', 'coord', 'task', 'bex', 'tasksem', 'sws'] + ['cci', 'defer']
+
 EXPLANATION = (
     'C04: the real TransferManager over the model executor and model threading primitives (engine NS).  A model Lock '
     'knows its owner, so a re-acquisition by the owner is a definite self-deadlock; blocking primitives run other '
